@@ -26,6 +26,9 @@ PROPS["C01"] = dict(
         S("small-nosse-ts-asan", "func", ["--fam", "mul"], (800, 300), (20000, 1000)),
         S("small-gomp-asan", "func", ["--fam", "mul"], (600, 400), (20000, 1300), env={"OMP_NUM_THREADS": "3"}),
         S("odd-asan", "func", ["--fam", "mul"], (1500, 700), (20000, 1500)),
+        # wide mode (see FUNC): dimensions <= 100 or > 512, second and later rounds of the 8-way unrolled word loops
+        S("small-asan", "func", ["--fam", "mul", "--wide", "1"], (300, 1100), (3000, 1400)),
+        S("small-nosse-ts-asan", "func", ["--fam", "mul", "--wide", "1"], (150, 1100), (1500, 1400)),
     ],
     require_tags={"quick": ["strassen_depth=2", "cubic", "m4rm", "squaring"], "thorough": ["strassen_depth=3", "cubic", "m4rm", "squaring"]},
 )
@@ -42,6 +45,10 @@ def FUNC(fam, q_small, t_small, q_host=None, t_host=None, q_ts=None, t_ts=None, 
     # that gains (or already has) a parallel region is only exercised there
     st.append(S("small-gomp-asan", "func", ["--fam", fam], (max(300, q_small[0] // 8), q_small[1]), (t_small[0] // 8, t_small[1]),
                 env={"OMP_NUM_THREADS": "4"}, workers=8))
+    # wide mode: dimensions are either <= 100 or > 512 columns/rows, so the library's 8-way unrolled word loops and the PLE/TRSM strips of
+    # 8 words are left behind; the scalar (no-SSE2) variants of those loops get their own stage
+    st.append(S("small-asan", "func", ["--fam", fam, "--wide", "1"], (max(240, q_small[0] // 24), 1100), (t_small[0] // 24, 1400)))
+    st.append(S("small-nosse-ts-asan", "func", ["--fam", fam, "--wide", "1"], (max(120, q_small[0] // 48), 1100), (t_small[0] // 48, 1400)))
     if extra:
         st.extend(extra)
     return st
@@ -151,6 +158,8 @@ PROPS["C09"] = dict(
         S("host-asan", "views", [], (1500, 300), (30000, 1200)),
         # sizes that enter the block-recursive PLE / TRSM / Strassen regimes on windows
         S("small-asan", "views", ["--fam", "ple,ech,solve,kernel,trsm,inv,mul"], (700, 420), (12000, 900)),
+        S("small-asan", "views", ["--wide", "1"], (500, 1100), (6000, 1400)),
+        S("small-nosse-ts-asan", "views", ["--wide", "1"], (250, 1100), (3000, 1400)),
     ],
 )
 
@@ -196,6 +205,7 @@ PROPS["C11"] = dict(
         S("odd-asan", "func", ["--fam", ALLFAM, "--policy", "win"], (2000, 450), (40000, 1000)),
         S("host-clang-asan", "func", ["--fam", ALLFAM, "--policy", "win"], (3000, 300), (60000, 1200)),
         # MemorySanitizer: reads of uninitialised scalars / heap words that influence a branch, an address or a result
+        S("small-asan", "func", ["--fam", ALLFAM, "--policy", "win", "--wide", "1"], (500, 1100), (6000, 1400)),
         S("small-msan", "func", ["--fam", ALLFAM], (4000, 300), (60000, 800)),
         S("small-msan", "func", ["--fam", ALLFAM, "--policy", "win"], (2000, 300), (30000, 800)),
         S("small-gomp-asan", "func", ["--fam", "mul,ech", "--policy", "win"], (500, 300), (10000, 700), env={"OMP_NUM_THREADS": "4"}),
